@@ -30,7 +30,10 @@ CONSTANTS Key, Val,        \* keys and (present) values
           MaxBlocks,       \* blocks 1..MaxBlocks
           MaxOps,          \* transactions per block
           OriginInHash,    \* TRUE: as in the code
-          RecordOffset     \* dead nodes of block r are recorded at round r - RecordOffset (0 in the code)
+          RecordOffset,    \* dead nodes of block r are recorded at round r - RecordOffset (0 in the code)
+          MaxRollbacks,    \* bound on the number of rollbacks in a history
+          EmptyRecordWritten, \* TRUE: as in the code, an empty dead-node list is recorded too
+          CrashOnStale     \* may a crash before the record hit a round that carries an abandoned block's record?
 
 None == [t |-> "none"]
 Org(r) == IF OriginInHash THEN r ELSE 0
@@ -46,9 +49,10 @@ VARIABLES tree,     \* Key -> leaf node or None: the trie of the block being bui
           store,    \* nodes in the persistent store
           dead,     \* round -> set of nodes recorded dead at that round
           final,    \* sequence of finalized blocks [round, root]
-          pruned    \* highest version pruned so far
+          pruned,   \* highest version pruned so far
+          nroll     \* rollbacks so far
 
-vars == <<tree, root, round, nops, changes, deletes, store, dead, final, pruned>>
+vars == <<tree, root, round, nops, changes, deletes, store, dead, final, pruned, nroll>>
 
 Kids(tr) == {tr[k] : k \in {x \in Key : tr[x] # None}}
 
@@ -58,6 +62,7 @@ Init ==
   /\ changes = <<>> /\ deletes = {}
   /\ store = {Root({}, 0)} /\ dead = <<>>
   /\ final = <<[round |-> 0, root |-> Root({}, 0)]>> /\ pruned = 0
+  /\ nroll = 0
 
 -----------------------------------------------------------------------------
 (* ChangeCollector, as functions on <<changes, deletes>> *)
@@ -98,17 +103,18 @@ Txn(k, v) ==
      IN /\ tree' = tr2 /\ root' = r2
         /\ changes' = cc4[1] /\ deletes' = cc4[2]
   /\ nops' = nops + 1
-  /\ UNCHANGED <<round, store, dead, final, pruned>>
+  /\ UNCHANGED <<round, store, dead, final, pruned, nroll>>
 
 (* chain.finalizeBlock: SaveChanges + RecordDeadNodes(GetDeletes(), round); next block starts *)
 Finalize(record) ==
   /\ round <= MaxBlocks
+  /\ record \/ CrashOnStale \/ (round - RecordOffset) \notin Dom(dead)
   /\ store' = store \cup Dom(changes)
-  /\ dead' = IF record /\ round - RecordOffset >= 0
+  /\ dead' = IF record /\ round - RecordOffset >= 0 /\ (EmptyRecordWritten \/ deletes # {})
                THEN With(dead, round - RecordOffset, deletes) ELSE dead   \* ~record: crash before the record was written
   /\ final' = Append(final, [round |-> round, root |-> root])
   /\ round' = round + 1 /\ nops' = 0 /\ changes' = <<>> /\ deletes' = {}
-  /\ UNCHANGED <<tree, root, pruned>>
+  /\ UNCHANGED <<tree, root, pruned, nroll>>
 
 (* PNodeDB.PruneBelowVersion(v), v up to the latest finalized round *)
 Prune(v) ==
@@ -117,11 +123,30 @@ Prune(v) ==
        /\ store' = store \ UNION {dead[q] : q \in rs}
        /\ dead' = [q \in Dom(dead) \ rs |-> dead[q]]
   /\ pruned' = v
-  /\ UNCHANGED <<tree, root, round, nops, changes, deletes, final>>
+  /\ UNCHANGED <<tree, root, round, nops, changes, deletes, final, nroll>>
+
+(* chain.finalizeRound's rollback: the last n finalized blocks are abandoned, the LFB is the  *)
+(* block below them again and the next block is built on ITS state, at the round above it.   *)
+(* Store and dead-node records are not touched.  The block under construction is dropped.    *)
+(* Not below the pruned version: the state the chain would return to is (rightly) gone - the  *)
+(* code prunes PruneStateBelowCount rounds below the LFB and C27 speaks of retained blocks.   *)
+TreeOf(rt) == [k \in Key |-> IF \E x \in rt.kids : x.k = k THEN CHOOSE x \in rt.kids : x.k = k ELSE None]
+Rollback(n) ==
+  /\ nroll < MaxRollbacks
+  /\ n \in 1..(Len(final) - 1)
+  /\ LET to == final[Len(final) - n] IN
+       /\ to.round >= pruned
+       /\ final' = SubSeq(final, 1, Len(final) - n)
+       /\ root' = to.root /\ tree' = TreeOf(to.root)
+       /\ round' = to.round + 1
+  /\ nops' = 0 /\ changes' = <<>> /\ deletes' = {}
+  /\ nroll' = nroll + 1
+  /\ UNCHANGED <<store, dead, pruned>>
 
 Next == \/ \E k \in Key, v \in Val \cup {0} : Txn(k, v)
         \/ \E rec \in BOOLEAN : Finalize(rec)
         \/ \E v \in 1..MaxBlocks : Prune(v)
+        \/ \E n \in 1..MaxBlocks : Rollback(n)
 Spec == Init /\ [][Next]_vars
 
 -----------------------------------------------------------------------------
